@@ -14,6 +14,8 @@ ASSUMPTIONS = [
     "low-speed bit times = 80 / 260 / 640 cycles at 60 MHz; the half-cycle of 6.5 FS bit times may be rounded either "
     "way (32 or 33 at 60 MHz, 6 or 7 at 12 MHz) but the deadline strobe must occur exactly once",
     "speed takes only the values HIGH/FULL/LOW; in fs_only builds only FULL is asserted on (statement)",
+    "a reset of the usb clock domain (ResetInserter around the timer) asserted in cycle s restarts the measurement exactly "
+    "like a start asserted in cycle s (statement: 'from the most recent timer start (or reset)')",
     "each strobe is expected only in its exact cycle (it is a strobe) and on every attached interface",
 ]
 
@@ -44,8 +46,11 @@ def _harness(clock, fs_only):
     a, b = InterpacketTimerInterface(), InterpacketTimerInterface()
     dut.add_interface(a)
     dut.add_interface(b)
+    # a synchronous reset of the timer's clock domain, applied from outside (the statement's "or reset")
+    from amaranth import Signal, ResetInserter
+    rst = Signal()
     return CycleHarness(
-        dut, dict(speed=dut.speed, s0=a.start, s1=b.start),
+        ResetInserter({"usb": rst})(dut), dict(speed=dut.speed, s0=a.start, s1=b.start, rst=rst),
         dict(a0=a.tx_allowed, d0=a.tx_timeout, t0=a.rx_timeout, a1=b.tx_allowed, d1=b.tx_timeout, t1=b.rx_timeout),
         domain="usb", period=1 / clock)
 
@@ -76,7 +81,7 @@ class Timer(Sub):
     def strategy(self):
         wait = st.one_of(st.sampled_from(NEAR), st.sampled_from(NEAR), st.integers(0, 40), st.integers(0, 700))
         seg = st.fixed_dictionaries(dict(
-            start=weighted([(1, 4), (2, 2), (3, 1), (0, 1)]),          # bit0: interface 0, bit1: interface 1
+            start=weighted([(1, 4), (2, 2), (3, 1), (0, 1), (4, 2)]),  # bit0: interface 0, bit1: interface 1, 4: domain reset
             hold=weighted([(1, 6), (2, 1), (3, 1)]),
             speed=st.sampled_from([HIGH, FULL, LOW]),
             wait=wait,
@@ -94,12 +99,12 @@ class Timer(Sub):
             st_bits = sg["start"]
             if st_bits:
                 for _ in range(sg["hold"]):
-                    script.append(dict(speed=sg["speed"], s0=st_bits & 1, s1=(st_bits >> 1) & 1))
+                    script.append(dict(speed=sg["speed"], s0=st_bits & 1, s1=(st_bits >> 1) & 1, rst=st_bits >> 2))
             sp = sg["speed"]
             for k in range(sg["wait"] + 1):
                 if sg["switch"] is not None and k == sg["switch"][0]:
                     sp = sg["switch"][1]
-                script.append(dict(speed=sp, s0=0, s1=0))
+                script.append(dict(speed=sp, s0=0, s1=0, rst=0))
         trace = self.harness(case["cfg"]).run_script(script)
 
         elapsed = 0
@@ -108,7 +113,7 @@ class Timer(Sub):
         labels = {f"clk{int(clock / 1e6)}" + ("-fsonly" if fs_only else "")}
         for t, (vec, o) in enumerate(zip(script, trace)):
             sp = vec["speed"]
-            started = vec["s0"] | vec["s1"]
+            started = vec["s0"] | vec["s1"] | vec["rst"]
             if not (fs_only and sp != FULL):
                 allowed, deadline, timeout = table(clock, sp)
                 got = (o.a0, o.d0, o.t0)
@@ -148,6 +153,8 @@ class Timer(Sub):
             labels.add("speed-switch-mid-wait")
         if not case["segs"][0]["start"]:
             labels.add("from-reset")
+        if any(sg["start"] == 4 for sg in case["segs"][1:]):
+            labels.add("domain-reset-mid-run")
         need = {FULL} if fs_only else {HIGH, FULL, LOW}
         return Result(ok=True, nontrivial=need <= measured and restart_early, labels=tuple(sorted(labels)))
 
@@ -159,14 +166,14 @@ class Timer(Sub):
         hits = 0
         for t, (vec, o) in enumerate(zip(script, trace)):
             sp = vec["speed"]
-            started = vec["s0"] | vec["s1"]
+            started = vec["s0"] | vec["s1"] | vec["rst"]
             if not (fs_only and sp != FULL):
                 _, deadline, _ = table(clock, sp)
                 if len(deadline) == 2:
                     lo, hi = sorted(deadline)
                     if elapsed == lo:
                         hits = o.d0
-                    elif elapsed == hi and t >= 1 and not (script[t - 1]["s0"] | script[t - 1]["s1"]) and \
+                    elif elapsed == hi and t >= 1 and not (script[t - 1]["s0"] | script[t - 1]["s1"] | script[t - 1]["rst"]) and \
                             script[t - 1]["speed"] == sp:
                         hits += o.d0
                         if hits != 1:
